@@ -42,6 +42,11 @@ def check(model: Model, rep: Report, tier: str):
         o6(model, rep)
     with rep.isolated():
         o7(model, rep)
+    from .c06 import u5 as _u5
+    from .common import share_rule as _share
+    with rep.isolated():
+        _share(rep, model, _u5, "C15.O9", "sub-circuits are exported as many times as their repetition count AT EXPORT TIME: nr_of_repetitions is computed on every read, not "
+               "memoised (= C06.U5); a cached count keeps the value of the first export after the registry or callback changed")
 
 
 def _ctor_name(v: Term) -> Optional[str]:
